@@ -1168,8 +1168,8 @@ func (e *env) osvMatcherOps(chains int) {
 					if rnd.Chance(1, 2) {
 						ie = &chain[rnd.Intn(len(chain))]
 					}
-					shape := rnd.Pick("fixed", "fixed", "fixed", "lastAffected", "lastAffected", "open", "nofix")
-					if shape == "fixed" || shape == "lastAffected" {
+					shape := rnd.Pick("fixed", "fixed", "fixed", "lastAffected", "lastAffected", "open", "nofix", "both")
+					if shape == "fixed" || shape == "lastAffected" || shape == "both" {
 						// prefer bounds next to the package
 						ue = &chain[rnd.Intn(len(chain))]
 						if rnd.Chance(1, 2) {
@@ -1187,8 +1187,13 @@ func (e *env) osvMatcherOps(chains int) {
 					if ie != nil {
 						v.Add("introduced", ie.spell)
 					}
-					if ue != nil {
+					if ue != nil && shape != "both" {
 						v.Add(shape, ue.spell)
+					}
+					if shape == "both" {
+						// a fix and a last affected version: the fix decides (the matchers look at `fixed` first)
+						v.Add("fixed", ue.spell)
+						v.Add("lastAffected", chain[rnd.Intn(len(chain))].spell)
 					}
 					fixedIn := v.Encode()
 					if shape == "nofix" {
@@ -1212,7 +1217,7 @@ func (e *env) osvMatcherOps(chains int) {
 							want = false
 						}
 						switch shape {
-						case "fixed":
+						case "fixed", "both":
 							want = want && pe.rank < ue.rank
 						case "lastAffected":
 							want = want && pe.rank <= ue.rank
